@@ -133,8 +133,8 @@ pub fn rule(prop: &str) -> &'static str {
         "C06" => "case = history (build; verify; one disturbance: single-byte tamper / insert / delete / append / truncate / remove of an output in or outside the closure, trailing-newline flag flip, or source edit; verify), every invocation under its own seeded schedule. Non-trivial = a verify that must fail; distinct = distinct (project, history, action lists).",
         "C07" => "case = history (optional build; optional removal of generated files; clean; clean again) on projects with and without directive errors, every invocation under a seeded schedule, whole-tree snapshots before/after. Every clean run is non-trivial; distinct = distinct (project, history, action lists, op index).",
         "C08" => "case = history ending in a build whose result is compared with the same build (same schedule seed) from a pristine tree; pre-states: every generated path independently absent/stale/empty/prefix/random (valid and invalid UTF-8); build-build; needed-build; crash image at a seeded scheduler step with files of the interrupted action torn (old/empty/prefix/full), optionally a needed-build on the image; histories that first build, interrupt or --needed-build an earlier version of the sources (edited text, or a directive that fails and is then repaired); an eighth of the projects fail (only verdicts are compared then). Every 40th case is a syscall-level case: the real binary (one worker thread) is killed on entry to the k-th openat / write / rename / unlink of a recorded build or --needed run (strace), from a pristine, built or earlier-version tree, and a plain build (optionally a --needed build first) must then give what the build from a pristine tree gives. distinct = distinct (project, history, action lists).",
-        "C09" => "case = history (build; 0-3 edits/tamperings/deletions; optional verify; sentinel mtimes; checkpoint) then twin runs build and --needed from the identical pre-state under the same schedule seed. Every 60th case is a syscall-level case: the real binary (one worker thread) is killed on entry to the k-th openat / write / rename / unlink of a recorded run (strace), and from the tree the kill left --needed and a normal build must agree in verdict and bytes. Non-trivial = at least one generated file kept untouched and at least one brought up to date in the same case.",
-        "C10" => "case = history of 1-4 invocations in modes build/needed/verify/clean on projects with decoy files and (one third) an erroneous source, whole-tree snapshot diff (bytes, inode, mtime) around every invocation. Non-trivial = an invocation that changed at least one path.",
+        "C09" => "case = history (build; 0-3 edits/tamperings/deletions; optional verify; sentinel mtimes; checkpoint) then twin runs build and --needed from the identical pre-state under the same schedule seed. Every 60th case is a syscall-level case: the real binary (one worker thread) is killed on entry to the k-th openat / write / rename / unlink of a recorded run (strace), and from the tree the kill left --needed and a normal build must agree in verdict and bytes; in every other such case an errno is injected into a run on an up-to-date tree and nothing that held the right bytes may get a new inode or time stamp. Non-trivial = at least one generated file kept untouched and at least one brought up to date in the same case.",
+        "C10" => "case = history of 1-4 invocations in modes build/needed/verify/clean on projects with decoy files and (one third) an erroneous source, whole-tree snapshot diff (bytes, inode, mtime) around every invocation. Every 60th case is a syscall-level case: the k-th openat / read / write / getdents64 / unlink / rename of the real binary (one worker thread; build, --needed, verify, clean of a built and of a never-built tree) fails with an errno and the same write-set rules are evaluated on the tree around that run. Non-trivial = an invocation that changed at least one path.",
         _ => "",
     }
 }
@@ -218,8 +218,8 @@ pub fn components(prop: &str) -> serde_json::Value {
         "iteration order of released dependers and of scanned directory entries (seeded permutation)",
         "the console: stderr on /dev/null or /dev/full with Verbosity Quiet / Normal / Verbose (seeded per case)",
     ];
-    if prop == "C04" || prop == "C08" || prop == "C09" {
-        real.push("the txtpp binary built from src/main.rs without the verif feature, one worker thread, for the syscall-level cases (every 40th case; C09: every 60th)");
+    if prop == "C04" || prop == "C08" || prop == "C09" || prop == "C10" {
+        real.push("the txtpp binary built from src/main.rs without the verif feature, one worker thread, for the syscall-level cases (every 40th case; C09, C10: every 60th)");
         simulated.push("syscall-level faults in the real binary through strace(1): SIGKILL on entry to, or an errno from, the k-th openat / read / write / rename / unlink of the worker thread (every position of a recorded fault-free run, sampled above 18 per case)");
     }
     serde_json::json!({ "real": real, "simulated": simulated, "stubbed": [] })
